@@ -359,7 +359,7 @@ fn c14_history<A: Abc>(rec: &mut Recorder, rng: &mut impl Rng, fmt: &str, nrec: 
 
 pub fn record_c14(rec: &mut Recorder, seed: u64, thorough: bool) {
     let mut r = rng(seed, 14);
-    let counts: Vec<usize> = if thorough { vec![1, 1, 2, 3, 5, 8, 20, 60, 150, 400] } else { vec![1, 2, 3, 7, 40, 120] };
+    let counts: Vec<usize> = if thorough { vec![0, 1, 1, 2, 3, 5, 8, 20, 60, 150, 400] } else { vec![0, 1, 2, 3, 7, 40, 120] };
     let mut kind = 0;
     for &n in &counts {
         for rep in 0..(if n <= 8 { 7 } else { 2 }) {
